@@ -11,7 +11,7 @@
    [collapse_bin], [is_approximate_multiple], [filter_in_phase] are the executable
    model of filtering.py (Verif.C19.Model), tied to the code by Corr.v on this run. *)
 From Coq Require Import List ZArith QArith Qabs Bool Sorted PrimFloat.
-From Verif.C19 Require Import Carrier Model Spec Proofs ProofsArith ProofsPhase.
+From Verif.C19 Require Import Carrier Model Spec Proofs ProofsArith ProofsPhase ProofsFloat.
 Import ListNotations.
 Local Close Scope Q_scope.
 
@@ -77,18 +77,28 @@ Proof. exact raises_only_on_drift. Qed.
 
 (* --- collapse_plateaus: the mean and a half-open interval [low, high) with every point inside *)
 Theorem C19_collapse_mean_and_interval :
-  forall (o : ops),
-    (forall a, cleb o a a = true) ->
-    (forall a b c, cleb o a b = true -> cleb o b c = true -> cleb o a c = true) ->
-    (forall a b, cleb o a b = true \/ cleb o b a = true) ->
-    (forall a, cleb o (cnext o a) a = false) ->
+  forall (o : ops) (dom : C o -> Prop),
+    (forall a, dom a -> cleb o a a = true) ->
+    (forall a b c, dom a -> dom b -> dom c -> cleb o a b = true -> cleb o b c = true -> cleb o a c = true) ->
+    (forall a b, dom a -> dom b -> cleb o a b = true \/ cleb o b a = true) ->
+    (forall a b, dom a -> dom b -> cleb o b a = true -> cleb o (cnext o a) b = false) ->
     forall (bin : list (C o * V o)) m low high,
+      Forall (fun p => dom (fst p)) bin ->
       collapse_bin o bin = Some (m, low, high) ->
       m = vmean o (map snd bin)
       /\ interval_contains o low high bin
       /\ (exists p, In p bin /\ low = fst p /\ forall q, In q bin -> cleb o low (fst q) = true)
       /\ (exists p, In p bin /\ high = cnext o (fst p) /\ forall q, In q bin -> cleb o (fst q) (fst p) = true).
 Proof. exact collapse_mean_and_interval. Qed.
+
+(* binary64 coordinates (finite): [min, nextafter(max, +inf)) *)
+Theorem C19_collapse_interval_float : forall (bin : list (float * float)) m low high,
+  Forall (fun p => ffin (fst p)) bin ->
+  collapse_bin FF bin = Some (m, low, high) ->
+  (forall p, In p bin -> PrimFloat.leb low (fst p) = true /\ PrimFloat.leb high (fst p) = false)
+  /\ (exists p, In p bin /\ low = fst p)
+  /\ (exists p, In p bin /\ high = next_up (fst p)).
+Proof. exact collapse_interval_float. Qed.
 
 Theorem C19_collapse_interval_int : forall (bin : list (Z * float)) m low high,
   collapse_bin ZF bin = Some (m, low, high) ->
@@ -146,6 +156,9 @@ Example C19_nonvacuous_collapse :
      = Some (Some 2%float, 1%float, 0x1.0000000000001p+1%float).
 Proof. split; vm_compute; reflexivity. Qed.
 
+Example C19_nonvacuous_finite_float : ffin 1%float /\ ffin (-0x1.8p-3)%float /\ ~ ffin infinity.
+Proof. repeat split; try (vm_compute; reflexivity). vm_compute. discriminate. Qed.
+
 Example C19_nonvacuous_in_phase :
   ~ (14 == 0)%Q
   /\ is_approximate_multiple (QQ (fun x => x)) 28%Q 14%Q (1 # 1000000)%Q = true
@@ -162,6 +175,7 @@ Print Assumptions C19_bins_partition_input.
 Print Assumptions C19_points_unchanged.
 Print Assumptions C19_raises_only_on_drift.
 Print Assumptions C19_collapse_mean_and_interval.
+Print Assumptions C19_collapse_interval_float.
 Print Assumptions C19_collapse_interval_int.
 Print Assumptions C19_collapse_interval_Q.
 Print Assumptions C19_in_phase_iff.
